@@ -21,6 +21,7 @@ import Rooc.Proofs.WFAnalyzerProper
 import Rooc.Proofs.RatInst
 import Rooc.Proofs.WFPerm
 import Rooc.Proofs.WFRel2An
+import Rooc.Proofs.RefLemmas
 namespace Rooc.Props.C08
 open Rooc Rooc.Lin Rooc.WFDedup Rooc.Lin.Examples
 
@@ -562,5 +563,28 @@ example : linearizeWith exD exDb exD.domain.reverse = .error (.varAlreadyDeclare
   cases linearizeWith exD exDb exD.domain.reverse with
   | ok lm => exact fun h => h.elim
   | error e => exact fun h => by rw [← h]
+
+/-! ### 11. every variable that OCCURS in the source is a variable of the compiled model
+
+The clause of the property as written ("contains every variable that occurs in the source objective or
+constraints") is `source_vars_present` composed with the front end's marking discipline `Ref.Closed m`
+(decidable): every variable occurring in the objective or in a constraint is declared and carries a usage mark
+(`il_exp.rs` increments the mark at every reference; `Compose.closed_of_logicModel` derives it from the semantic
+contract). -/
+
+/-- every variable the meaning of the source depends on is a variable of the compiled model, for the whole
+compiler and any number type. -/
+theorem compile_occurring_vars_present {m : Model α} {tol : α} {maxSteps : Nat} {lm : LinModel α}
+    (hcl : Ref.Closed m = true) (h : Compile.linearize m tol maxSteps = .ok lm) :
+    ∀ x ∈ Ref.modelVars m, x ∈ lm.vars := by
+  intro x hx
+  have h1 := (compile_lengths_and_names h).2.2.2.2.1
+  simp only [Ref.Closed, List.all_eq_true, List.contains_iff_mem] at hcl
+  have hu := hcl x hx
+  simp only [WF.report, List.all_eq_true, List.contains_iff_mem] at h1
+  exact h1 x (by simpa [Ref.usedNames] using hu)
+
+example (tol : Ext Rat) : "x" ∈ (assemble exA (Ctx.fromVar "x" Arith.one) exA_final).vars :=
+  compile_occurring_vars_present (m := exA) (by decide) (exA_compile tol) "x" (by decide)
 
 end Rooc.Props.C08
